@@ -13,6 +13,9 @@ import ClairModel.Model.Cvss
     d2 <hex> <k>       -> tie <score*10> | notie <score*10>   (some math.Round argument is exactly half-way)
     d3 <hex> <k>       -> tie <score*10> | notie <score*10>   (v3.0: some Roundup argument is exactly a tenth)
     o2 <hex> / o3 <hex>-> err | <claircore.Severity 0..5>
+    rt <va> <hexA> <vb> <hexB> -> err | ok <printed A> <printed B>   (printing is a function of the vector:
+                                                      the implementation side shows the bytes MarshalText
+                                                      returned for A after B was marshalled as well)
 -/
 namespace Driver.C18
 open ClairModel.Cvss
@@ -59,6 +62,13 @@ def v3Tie (v : Vec) : Bool :=
       let base10 := v3Roundup10 v.ver b
       (b * ten).isInt || ((tenth base10 * e * rl * rc) * ten).isInt
     | _, _, _, _, _ => false
+
+/-- parse by major version and print -/
+def reprint (ver : String) (s : List Nat) : Option String :=
+  if ver == "2" then (parse2 s).map fun v => str (print2 v)
+  else if ver == "3" then (parse3 s).map fun v => str (print3 v)
+  else if ver == "4" then (parse4 s).map fun v => str (print4 v)
+  else none
 
 def stepLine (_ : Unit) (l : String) : Unit × String :=
   if l == "reset" then ((), "ok") else
@@ -115,6 +125,13 @@ def stepLine (_ : Unit) (l : String) : Unit × String :=
         match parse3 s with
         | none => "err"
         | some v => s!"{if v3Tie v then "tie" else "notie"} {showScore (score3 v)}"
+    | ["rt", va, ha, vb, hb] =>
+      match toBytes ha, toBytes hb with
+      | some a, some b =>
+        match reprint va a, reprint vb b with
+        | some pa, some pb => s!"ok {pa} {pb}"
+        | _, _ => "err"
+      | _, _ => "bad-op"
     | ["o2", h] =>
       match toBytes h with
       | none => "bad-op"
